@@ -1173,6 +1173,8 @@ var c01Mutants = []Mutant{
 		Old: "case ocispec.MediaTypeImageManifest, ocispec.MediaTypeImageIndex, spec.MediaTypeArtifactManifest:", New: "case ocispec.MediaTypeImageManifest, spec.MediaTypeArtifactManifest:", Expect: "C01.R1.successor-field-coverage|~/internal/manifestutil.Subject|image-index"},
 	{Name: "foreign-set-widened", File: "internal/descriptor/descriptor.go",
 		Old: "\t\tdocker.MediaTypeForeignLayer:\n", New: "\t\tdocker.MediaTypeForeignLayer,\n\t\tocispec.MediaTypeImageLayerGzip:\n", Expect: "C01.R2.foreign-layer-filter|~/internal/descriptor.IsForeignLayer|media-type-set"},
+	{Name: "foreign-by-urls", File: "internal/descriptor/descriptor.go",
+		Old: "\t\tdocker.MediaTypeForeignLayer:\n\t\treturn true\n\tdefault:\n\t\treturn false\n", New: "\t\tdocker.MediaTypeForeignLayer:\n\t\treturn true\n\tdefault:\n\t\treturn len(desc.URLs) > 0\n", Expect: "C01.R2.foreign-layer-filter|~/internal/descriptor.IsForeignLayer|true-only-for-listed-types"},
 	{Name: "filter-drops-non-foreign", File: "copy.go",
 		Old: "\t\tif !descriptor.IsForeignLayer(desc) {\n\t\t\tif i != j {", New: "\t\tif !descriptor.IsForeignLayer(desc) && !descriptor.IsManifest(desc) {\n\t\t\tif i != j {", Expect: "C01.R2.foreign-layer-filter"},
 	{Name: "filter-removed", File: "copy.go",
